@@ -88,8 +88,14 @@ def canon_of_real(tree, typed, expect):
 # ------------------------------------------------------------------------------
 # running one case
 # ------------------------------------------------------------------------------
-def _deser(nt):
+def _deser(nt, consume=False):
     cache = {}
+
+    def deser_c(parent, data):
+        try:
+            return deser(parent, data)
+        finally:
+            data.clear()  # a mapper that uses up the entry dict (e.g. Cls(**data))
 
     def deser(parent, data):
         if "type" not in data:
@@ -115,7 +121,7 @@ def _deser(nt):
             cache[key] = decode_value(core, nt)
         return cache[key]
 
-    return deser
+    return deser_c if consume else deser
 
 
 class DocObj:
@@ -147,7 +153,8 @@ def run_case(case: dict, nt):
         text = json.dumps(case["doc"])
         fm = {}
         try:
-            loaded = cls.load(S.SimStream_from(text), mapper=_deser(nt), file_meta=fm)
+            loaded = cls.load(S.SimStream_from(text),
+                              mapper=_deser(nt, consume=bool(case.get("consume"))), file_meta=fm)
         except Exception as e:  # noqa: BLE001
             return [Violation("C12", "reader-rejects-layout",
                               f"load() of a document that follows the documented layout raised "
@@ -357,7 +364,8 @@ def seeded_cases(base_seed, index, tier, nt):
                         ent[1]["x"] = ks
             cases.append({"engine": "peer", "case": "load",
                           "cls": "TypedTree" if mt.typed else "Tree", "doc": doc,
-                          "expect": expect, "user_meta": um or {}})
+                          "expect": expect, "user_meta": um or {},
+                          "consume": rng.random() < 0.4})
     # C03 routes: a document / dict list with duplicate siblings must be refused
     labels = ["a", "b", "c"]
     dup = rng.choice(labels)
